@@ -64,6 +64,7 @@ type Recorder struct {
 	findings    map[string]knownFinding
 	lastCase    interface{}
 	lastFail    *Fail
+	journalAll  bool
 }
 
 type violation struct {
@@ -221,6 +222,22 @@ func outDir(id string) string {
 	}
 	_ = os.MkdirAll(d, 0o755)
 	return d
+}
+
+// JournalAll makes runProp write every case to the journal before running it: if the process running
+// the proxy in-process dies, the driver turns the last journal entry into the (unshrunk) replay file.
+func (r *Recorder) SetJournalAll(b bool) { r.journalAll = b }
+func (r *Recorder) JournalAll() bool     { return r.journalAll }
+
+// Journal records the case that is about to run.
+func (r *Recorder) Journal(kind string, c interface{}) {
+	idx, _ := Shard()
+	doc := map[string]interface{}{"property": r.ID, "kind": kind, "sig": "process-crash", "msg": "the process died while running this case", "case": c}
+	b, err := json.Marshal(doc)
+	if err != nil {
+		return
+	}
+	_ = os.WriteFile(filepath.Join(outDir(r.ID), fmt.Sprintf("journal-%d.json", idx)), b, 0o644)
 }
 
 // Flush turns a remembered failure (if any) into a replay file and a VIOLATION line.
